@@ -42,13 +42,63 @@ var c14FailInt = []struct {
 	{"nil_pointer", func() gast.Expr { return gast.P("F", "Sub", "X") }}, // with F.Sub == nil
 }
 
+// c14Hot is set by the C14 test to the hot locations of the case being generated: failures that depend on
+// them start and stop during the run (an index that walks out of range, a key that appears, a divisor
+// that becomes zero), unlike the static kinds, which fail from the first evaluation on.
+var c14Hot []gen.PathInfo
+
+func c14Dynamic(rt *rapid.T) (string, gast.Expr, bool) {
+	var ints, strs []gen.PathInfo
+	for _, h := range c14Hot {
+		// (an index of an unsigned kind is not supported by the engine at all: it reads the selector with
+		// reflect.Value.Int - generator restriction, see DESIGN 9.2)
+		if h.T == gast.TInt && !h.ArithOnly && !h.Loose && !h.Unsigned {
+			ints = append(ints, h)
+		}
+		if h.T == gast.TStr {
+			strs = append(strs, h)
+		}
+	}
+	switch rapid.IntRange(0, 2).Draw(rt, "dynamic_kind") {
+	case 0:
+		if len(ints) > 0 {
+			h := ints[rapid.IntRange(0, len(ints)-1).Draw(rt, "dynamic_loc")]
+			return "dynamic_index", gast.P("F", "RO").At(h.Mk()), true
+		}
+	case 1:
+		if len(strs) > 0 {
+			h := strs[rapid.IntRange(0, len(strs)-1).Draw(rt, "dynamic_loc")]
+			return "dynamic_key", gast.P("F", "M").At(h.Mk()), true
+		}
+	default:
+		if len(ints) > 0 {
+			h := ints[rapid.IntRange(0, len(ints)-1).Draw(rt, "dynamic_loc")]
+			return "dynamic_modulo_zero", &gast.Bin{Op: gast.OpMod, L: gast.I(7), R: h.Mk()}, true
+		}
+	}
+	return "", nil, false
+}
+
 // c14Inject adds a failing sub-expression to a rule and says where.
 func c14Inject(rt *rapid.T, r *gast.Rule, st *facts.State) (where string, kind string) {
 	f := c14FailInt[rapid.IntRange(0, len(c14FailInt)-1).Draw(rt, "fail_kind")]
+	if len(c14Hot) > 0 && rapid.IntRange(0, 1).Draw(rt, "dynamic_failure") == 0 {
+		if name, e, ok := c14Dynamic(rt); ok {
+			f.Name = name
+			f.Mk = func() gast.Expr { return gast.Clone(e) }
+		}
+	}
 	if f.Name == "nil_pointer" {
 		st.Go["F"].Sub = nil
 	}
-	failBool := &gast.Bin{Op: gast.OpGT, L: f.Mk(), R: gast.I(int64(rapid.IntRange(0, 3).Draw(rt, "fail_cmp")))}
+	var failBool gast.Expr = &gast.Bin{Op: gast.OpGT, L: f.Mk(), R: gast.I(int64(rapid.IntRange(0, 3).Draw(rt, "fail_cmp")))}
+	if rapid.Bool().Draw(rt, "fail_parenthesised") {
+		if rapid.Bool().Draw(rt, "fail_negated") {
+			failBool = &gast.Not{X: &gast.Paren{X: failBool}}
+		} else {
+			failBool = &gast.Paren{X: failBool}
+		}
+	}
 	if rapid.IntRange(0, 2).Draw(rt, "fail_where") > 0 {
 		switch rapid.IntRange(0, 3).Draw(rt, "fail_join") {
 		case 0:
@@ -119,7 +169,8 @@ func c14CheckErrOnFail(c *val.Case, prep *val.Prepared, rep *val.Report) []strin
 	ok := false
 	for _, r := range c.Rules {
 		_, terr := prep.Solo.Truth(r.Name, live, dc)
-		if terr != nil && c14NamesRule(rep.Err, r.Name) {
+		_, rerr := ref.New(rep.Final.Copy()).Eval(r.When)
+		if (terr != nil || (rerr != nil && !ref.IsUndefined(rerr))) && c14NamesRule(rep.Err, r.Name) {
 			ok = true
 		}
 	}
@@ -264,8 +315,43 @@ func TestC14(t *testing.T) {
 	// (1) structural failures
 	check(t, 0, budget(2400, 40000), func(rt *rapid.T) {
 		c, rs := genRSCase(rt, cfgS)
-		n := rapid.IntRange(1, 2).Draw(rt, "ninject")
+		c14Hot = rs.Hot
+		defer func() { c14Hot = nil }()
 		var wheres, kinds []string
+		// a scenario that makes a condition start failing in the middle of a run while the run goes on:
+		// "Walk" reads a slice through an index it advances itself (so it fails once the index leaves
+		// the slice), "Tick" keeps the engine cycling
+		if rapid.IntRange(0, 3).Draw(rt, "walk_scenario") == 0 {
+			var ints []gen.PathInfo
+			for _, h := range rs.Hot {
+				if h.T == gast.TInt && !h.ArithOnly && !h.Loose && !h.Unsigned {
+					ints = append(ints, h)
+				}
+			}
+			if len(ints) >= 1 {
+				idx := ints[rapid.IntRange(0, len(ints)-1).Draw(rt, "walk_index")]
+				var read gast.Expr = &gast.Bin{Op: gast.OpGTE, L: gast.P("F", "RO").At(idx.Mk()), R: gast.I(0)}
+				switch rapid.IntRange(0, 3).Draw(rt, "walk_shape") {
+				case 1:
+					read = &gast.Paren{X: read}
+				case 2:
+					read = &gast.Not{X: &gast.Paren{X: &gast.Bin{Op: gast.OpLT, L: gast.P("F", "RO").At(idx.Mk()), R: gast.I(0)}}}
+				case 3:
+					read = &gast.Bin{Op: gast.OpAnd, L: &gast.Paren{X: read}, R: gast.B(true)}
+				}
+				walk := &gast.Rule{Name: "Walk", When: read, Then: []gast.Stmt{&gast.Assign{LHS: idx.Mk(), Op: "+=", RHS: gast.I(1)}}}
+				tick := &gast.Rule{Name: "Tick", When: &gast.Bin{Op: gast.OpLT, L: gast.P("F", "H"), R: gast.I(int64(rapid.IntRange(3, 9).Draw(rt, "tick_limit")))},
+					Then: []gast.Stmt{&gast.Assign{LHS: gast.P("F", "H"), Op: "+=", RHS: gast.I(1)}}}
+				sw, st := int64(rapid.IntRange(-2, 2).Draw(rt, "walk_salience")), int64(rapid.IntRange(-2, 2).Draw(rt, "tick_salience"))
+				walk.Salience, tick.Salience = &sw, &st
+				c.Rules = append(c.Rules, walk, tick)
+				c.Init.Go["F"].H = 0
+				c.MaxCycle = 30
+				wheres = append(wheres, "condition")
+				kinds = append(kinds, "walk_out_of_range")
+			}
+		}
+		n := rapid.IntRange(1, 2).Draw(rt, "ninject")
 		for i := 0; i < n; i++ {
 			r := c.Rules[rapid.IntRange(0, len(c.Rules)-1).Draw(rt, "inject_rule")]
 			w, k := c14Inject(rt, r, c.Init)
@@ -279,6 +365,7 @@ func TestC14(t *testing.T) {
 			c.SoloTexts[r.Name] = gast.RuleString(r)
 		}
 		c.ErrOnFail = rapid.Bool().Draw(rt, "err_on_fail")
+		c.RefFailures = true
 		rep, v, err := c14RunStructural(c)
 		if err != nil {
 			rt.Fatalf("harness: %v\n%s", err, c.Text)
